@@ -275,7 +275,21 @@ Section Algorithms.
         map (fun x => (vid (vget s (snd x)), vmeta (vget s (snd x)), fst x)) (firstn k sel)
     end.
 
+  (* the level-0 search as Search performs it *)
+  Definition beam (s : hnsw) (q : vec) (k : nat) : list qitem :=
+    match entry s with
+    | None => []
+    | Some e0 =>
+        let elevel := vlevel (vget s e0) in
+        let '(ep, _) := greedy_down s q e0 (vdist s q e0) elevel elevel in
+        search_level s q ep (Nat.max (c_ef c) k) 0
+    end.
+
   Definition getvertex (s : hnsw) (id : N) : option (meta * nat) :=
     match lookup_id s id with Some n => Some (vmeta (vget s n), vlevel (vget s n)) | None => None end.
   Definition h_items (s : hnsw) : list (N * item) := map (fun p => (fst p, (vvec (vget s (snd p)), vmeta (vget s (snd p))))) (idmap s).
 End Algorithms.
+
+(* does a beam contain every live vertex? *)
+Definition covers_b (s : hnsw) (found : list qitem) : bool :=
+  forallb (fun p => existsb (fun x => Nat.eqb (snd x) (snd p)) found) (idmap s).
